@@ -84,7 +84,8 @@ mod sm {
         }
 
         pub fn parse_page(&mut self, page: &str) -> Result<(), SError> {
-            for line in page.lines() {
+            let lines: Vec<&str> = page.lines().collect();
+            for (line_idx, line) in lines.iter().copied().enumerate() {
                 if line.trim().is_empty() {
                     continue;
                 }
@@ -106,8 +107,18 @@ mod sm {
                     }
                     State::GatheringSecurities => {
                         if TOTAL_ROW_RE.is_match(line) {
-                            // Maybe done. Try to terminate last security.
-                            if self.finalize_security_fmv().is_err() {
+                            // Maybe done. If another security or another candidate
+                            // total row follows, this can only be the figures of a
+                            // security holding 100.0% (even if its description happens
+                            // to end in something that looks like figures).
+                            let more_table_follows =
+                                lines[line_idx + 1..].iter().any(|l| {
+                                    l.contains(SEC_SEPARATOR) || TOTAL_ROW_RE.is_match(l)
+                                });
+                            // Otherwise, try to terminate last security.
+                            if more_table_follows
+                                || self.finalize_security_fmv().is_err()
+                            {
                                 // It is possible that this line is part of this
                                 // security (thus why it failed). This can be when
                                 // we have a single security, in which case, we can
